@@ -428,7 +428,7 @@ def rule_stable_sets(ctx, ix):
     from . import symeval as S
 
     ctx.rule("C15.stable-sets", "StableSet/StableFrozenSet iterate in first-insertion order (abstract evaluation over all equality patterns up to length 4)", min_instances=4)
-    vals = (3, 1, 2, 0)  # a builtin set of these iterates 0,1,2,3
+    vals = (5, 3, 4, 1, 2, 0)  # a builtin set of these iterates in ascending order
 
     def patterns(n):
         # restricted growth strings = equality patterns
@@ -480,7 +480,7 @@ def rule_stable_sets(ctx, ix):
 
         problems = {}
         n = 0
-        for ln in range(0, 5):
+        for ln in range(0, 7 if getattr(ctx, "tier", "quick") == "thorough" else 5):
             for pat in patterns(ln):
                 items = [vals[k] for k in pat]
                 n += 1
@@ -495,7 +495,7 @@ def rule_stable_sets(ctx, ix):
                             problems.setdefault("reversed() is not the reverse of the insertion order", (items, r_))
                     if "__or__" in meths and ln <= 3:
                         for pat2 in patterns(min(ln, 2)):
-                            items2 = [vals[(k + 1) % 4] for k in pat2]
+                            items2 = [vals[(k + 1) % len(vals)] for k in pat2]
                             u_ = listing(run(o, "__or__", make(*items2)))
                             if u_ != first_occurrence(items + items2):
                                 problems.setdefault("a | b does not keep left-then-right insertion order", (items, items2, u_))
